@@ -30,13 +30,14 @@ def num(x, floats=False):
     return float(x)
 
 
-def close(x, want):
+def close(x, want, unit=1.0):
+    """x equals the spec value up to rounding (unit = magnitude of the data, for values near zero)."""
     if want is None or x is None:
         return x is None and want is None
     if isinstance(x, bool) or not isinstance(x, (int, float)):
         return False
     w = float(want)
-    return abs(x - w) <= max(ATOL, RTOL * abs(w))
+    return abs(x - w) <= max(ATOL * unit, RTOL * abs(w))
 
 
 def nested(b, depth, f):
@@ -45,11 +46,11 @@ def nested(b, depth, f):
     return [nested(x, depth - 1, f) for x in b]
 
 
-def close_nested(got, want, depth):
+def close_nested(got, want, depth, unit=1.0):
     if depth == 0:
-        return close(got, want)
+        return close(got, want, unit)
     return (isinstance(got, list) and len(got) == len(want)
-            and all(close_nested(g, w, depth - 1) for g, w in zip(got, want)))
+            and all(close_nested(g, w, depth - 1, unit) for g, w in zip(got, want)))
 
 
 def to_rat(x, maxden=2000, big=20000):
@@ -79,29 +80,32 @@ def rat_or_skip(x):
 
 
 # --------------------------------------------------------------------------- building objects
-def make_hist(S, h, floats=False, tuples=False, edge_div=1):
-    """histogram from a spec record [edges, bins, oor(, cache)]; contents from rationals."""
+def make_hist(S, h, floats=False, tuples=False, emul=1, cmul=1):
+    """histogram from a spec record [edges, bins, oor(, cache)]; contents from rationals.
+    emul / cmul: magnitudes (powers of two) applied to the edges / the contents."""
     dim = len(h["edges"])
-    conv = (lambda e: e / float(edge_div)) if edge_div != 1 else ((lambda e: float(e)) if floats else (lambda e: e))
+    conv = (lambda e: e * emul) if emul != 1 else ((lambda e: float(e)) if floats else (lambda e: e))
     edges = [[conv(x) for x in e] for e in h["edges"]]
     if tuples:
         edges = tuple(tuple(e) for e in edges)
     arg = edges[0] if dim == 1 else edges
-    bins = nested(h["bins"], dim, lambda p: num(fr(p), floats))
+    cc = (lambda p: float(fr(p)) * cmul) if cmul != 1 else (lambda p: num(fr(p), floats))
+    bins = nested(h["bins"], dim, cc)
     hist = S.histogram(arg, bins=bins)
-    hist.n_out_of_range = num(fr(h["oor"]), floats)
+    hist.n_out_of_range = cc(h["oor"])
     return hist, copy.deepcopy(arg)
 
 
-def make_hist_int(S, h, floats=False, tuples=False):
+def make_hist_int(S, h, floats=False, tuples=False, emul=1, cmul=1):
     """histogram from a Convert.tla record [edges, bins] with plain integer contents."""
     dim = len(h["edges"])
-    c = float if floats else (lambda x: x)
-    edges = [[c(x) for x in e] for e in h["edges"]]
+    ce = (lambda x: x * emul) if emul != 1 else (float if floats else (lambda x: x))
+    cc = (lambda x: x * cmul) if cmul != 1 else (float if floats else (lambda x: x))
+    edges = [[ce(x) for x in e] for e in h["edges"]]
     if tuples:
         edges = tuple(tuple(e) for e in edges)
     arg = edges[0] if dim == 1 else edges
-    bins = nested(h["bins"], dim, c)
+    bins = nested(h["bins"], dim, cc)
     return S.histogram(arg, bins=bins), copy.deepcopy(arg)
 
 
